@@ -259,6 +259,14 @@ theorem lenInv : ∀ fuel, LenInv fuel
       | «while» c body => simp only [stmtS]; exact ih.whl c body st
       | foreach x d vals body => simp only [stmtS]; exact ih.fe x d vals body st
       | inline ss => simp only [stmtS]; exact ih.block ss st
+      | declT x =>
+        simp only [stmtS]
+        split
+        · rfl
+        · split
+          · rfl
+          · rename_i bs hbs
+            simp [declareVar_length hbs]
       | brk => simp [stmtS]
       | cont => simp [stmtS]
       | exit => simp [stmtS]
@@ -612,6 +620,13 @@ theorem insInv : ∀ fuel, InsInv fuel
       | «while» c body => simp only [stmtS]; exact ih.whl n c body st hne
       | foreach x d vals body => simp only [stmtS]; exact ih.fe n x d vals body st hne
       | inline ss => simp only [stmtS]; exact ih.block n ss st hne
+      | declT x =>
+        simp only [stmtS, St.ins_blocks, getVar_ins, declareVar_ins _ _ n st.blocks hne]
+        cases getVar x st.blocks with
+        | some _ => rfl
+        | none =>
+          simp only []
+          cases declareVar x (.int 0) st.blocks <;> rfl
       | brk => simp [stmtS]
       | cont => simp [stmtS]
       | exit => simp [stmtS]
@@ -911,6 +926,15 @@ theorem refInv : ∀ fuel, RefInv fuel
         refine ⟨?_, h4, ⟨hk, hs, ht⟩⟩
         simp only [St.pop, h1, h3]
       | inline ss => simp only [stmtI, stmtS]; exact ih.block ss rv st
+      | declT x =>
+        simp only [stmtI, stmtS]
+        cases getVar x st.blocks with
+        | some _ => exact Sim.fail _ _ _
+        | none =>
+          simp only []
+          cases declareVar x (.int 0) st.blocks with
+          | none => exact Sim.fail _ _ _
+          | some bs => exact Sim.ok _ _
       | brk => simp only [stmtI, stmtS]; exact ⟨rfl, rfl, ⟨by simp, by simp, by simp⟩⟩
       | cont => simp only [stmtI, stmtS]; exact ⟨rfl, rfl, ⟨by simp, by simp, by simp⟩⟩
       | exit => simp only [stmtI, stmtS]; exact ⟨rfl, rfl, ⟨by simp, by simp, by simp⟩⟩
@@ -1498,6 +1522,15 @@ theorem leInv : ∀ fuel, LeInv fuel
       | «while» c body => simp only [stmtS]; exact (ih.whl c body st).tail
       | foreach x d vals body => simp only [stmtS]; exact (ih.fe x d vals body st).tail
       | inline ss => simp only [stmtS]; exact ih.block ss st
+      | declT x =>
+        simp only [stmtS]
+        cases getVar x st.blocks with
+        | some _ => exact StackLE.refl _
+        | none =>
+          simp only []
+          cases hd : declareVar x (.int 0) st.blocks with
+          | none => exact StackLE.refl _
+          | some bs => simp only [declareVar_tail hd]; exact StackLE.refl _
       | brk => simp only [stmtS]; exact StackLE.refl _
       | cont => simp only [stmtS]; exact StackLE.refl _
       | exit => simp only [stmtS]; exact StackLE.refl _
